@@ -116,6 +116,13 @@ var (
 	goRefs   = []int{33, 34, 35, 37, 38, 39, 15}
 )
 
+var (
+	tByte = reflect.TypeOf(uint8(0))
+	tRune = reflect.TypeOf(int32(0))
+	// oneCharStrs are strings of exactly one character, of every UTF-8 length
+	oneCharStrs = []string{"a", "Z", "0", " ", "~", "\x7f", "\u0080", "é", "ß", "ÿ", "Ā", "λ", "€", "日", "\uffff", "😀", "\U0010ffff"}
+)
+
 // genSVFor draws a script value aimed at a parameter of type T: mostly something Go can
 // convert to T, sometimes nil, sometimes anything.
 func genSVFor(t *rapid.T, T reflect.Type, depth int) SV {
@@ -146,6 +153,12 @@ func genSVFor(t *rapid.T, T reflect.Type, depth int) SV {
 			return SV{K: "i", I: genInt(t)}
 		case r < 72:
 			return SV{K: "f", FB: genFloatBits(t)}
+		case r >= 90 && (T == tByte || T == tRune):
+			// a string for a byte / rune parameter: one character (ASCII and not), sometimes any string
+			if rapid.IntRange(0, 4).Draw(t, "charstr") == 0 {
+				return SV{K: "s", S: genStr(t)}
+			}
+			return SV{K: "s", S: rapid.SampledFrom(oneCharStrs).Draw(t, "char")}
 		default:
 			return genGo(t, idxNumeric)
 		}
